@@ -169,6 +169,56 @@ func c12Pair(c *mon.Ctx, a, b *exact.Shape, family string, closedA bool, n int) 
 			}
 			compare(t.Name, a2, b2, buildLib(a2, ic, closedA), buildLib(b2, ic, !closedA))
 		}
+		// fine affine encodings on the library side (for instance a 1/1024 grid next to 2^20)
+		{
+			enc := fineEncs[n%len(fineEncs)]
+			la, lb := buildLibEnc(a, ic, closedA, enc), buildLibEnc(b, ic, !closedA, enc)
+			got := c12Eval(la, lb)
+			c.Eval()
+			c.Count("transform fine-encoding")
+			if got.v != base.v {
+				if !haveWant {
+					want = [4]bool{exact.Contains(a, b), exact.Contains(b, a), exact.Intersects(a, b), exact.Intersects(b, a)}
+					haveWant = true
+				}
+				for i := 0; i < 4; i++ {
+					if got.v[i] == base.v[i] {
+						continue
+					}
+					var at attribution
+					wa, wb := a, b
+					side := "encoded"
+					if got.v[i] != want[i] {
+						if i < 2 {
+							at = attributeEnc(got.ev[i], enc)
+						}
+					} else {
+						side = "original"
+						if i < 2 {
+							at = attribute(base.ev[i])
+						}
+					}
+					if i == 1 {
+						wa, wb = wb, wa
+					}
+					cs := pairCase(a, b, map[string]interface{}{"family": family, "index": ic.String(), "closed_a": closedA, "transform": "fine encoding " + enc.Name, "predicate": c12Names[i],
+						"original_answer": base.v[i], "transformed_answer": got.v[i], "exact": want[i], "wrong_side": side, "attribution": at})
+					detail := fmt.Sprintf("%s changes from %v to %v under the exact encoding %s (exact %v)", c12Names[i], base.v[i], got.v[i], enc.Name, want[i])
+					vk := "variant " + c12Names[i] + " fine-encoding"
+					if i < 2 {
+						if !want[i] && len(at.Disagreeing) == 0 && wa.Kind == exact.KPoly && len(wa.Holes) > 0 && wb.HasInterior() && boundaryInside(wa, wb) {
+							c.KnownOrViolation("F24", vk, detail, cs)
+							continue
+						}
+						if id, _ := classifyWrong(at, false, 0); id != "" {
+							c.KnownOrViolation(id, vk, detail, cs)
+							continue
+						}
+					}
+					c.Violation(vk, detail, cs)
+				}
+			}
+		}
 		// translation through Move()
 		{
 			dx, dy := float64(3+n%5), float64(-2-n%3)
@@ -239,7 +289,7 @@ func c12Run(c *mon.Ctx) {
 }
 
 func init() {
-	must := []string{"transform Move", "transform re-encode B", "transform re-encode A", "transform closure toggled"}
+	must := []string{"transform fine-encoding", "transform Move", "transform re-encode B", "transform re-encode A", "transform closure toggled"}
 	for _, t := range c12Transforms {
 		must = append(must, "transform "+t.Name)
 	}
